@@ -95,11 +95,14 @@ theorem step_delivered_inflight (div : DivFn) (s s' : St) (a : Act) (hnr : isRel
     omega
 
 /-- what the handlers hold accounts for everything in flight -/
-structure SInv (s : SimpleSt) : Prop where
+structure SInv (base : Nat) (s : SimpleSt) : Prop where
   picked_le : s.picked ≤ s.inner.delivered.length
   account : s.inner.inflight.total = (s.inner.delivered.length - s.picked) + s.handling.length
+  /-- `Handle` was called exactly for the delivered items picked up so far, once each, in order
+      (`base` = what had been delivered before the handlers started) -/
+  handledOK : base ≤ s.picked ∧ s.handled = (s.inner.delivered.take s.picked).drop base
 
-theorem sstep_inv (div : DivFn) (s s' : SimpleSt) (a : SAct) (h : SInv s) (hs : sstep div s a = some s') : SInv s' := by
+theorem sstep_inv (div : DivFn) (base : Nat) (s s' : SimpleSt) (a : SAct) (h : SInv base s) (hs : sstep div s a = some s') : SInv base s' := by
   cases a with
   | inner a =>
     simp only [sstep] at hs
@@ -111,18 +114,30 @@ theorem sstep_inv (div : DivFn) (s s' : SimpleSt) (a : SAct) (h : SInv s) (hs : 
       | some i =>
         simp only [hi, Option.map_some, Option.some.injEq] at hs
         subst hs
-        obtain ⟨h1, h2, _⟩ := step_delivered_inflight div s.inner i a (by simpa using hnr) hi
-        exact ⟨by have := h.picked_le; show s.picked ≤ i.delivered.length; omega,
-          by have := h.account; have := h.picked_le; show i.inflight.total = (i.delivered.length - s.picked) + s.handling.length; omega⟩
+        obtain ⟨h1, h2, h3⟩ := step_delivered_inflight div s.inner i a (by simpa using hnr) hi
+        refine ⟨by have := h.picked_le; show s.picked ≤ i.delivered.length; omega,
+          by have := h.account; have := h.picked_le; show i.inflight.total = (i.delivered.length - s.picked) + s.handling.length; omega, ?_⟩
+        obtain ⟨hb, hh⟩ := h.handledOK
+        refine ⟨hb, ?_⟩
+        show s.handled = (i.delivered.take s.picked).drop base
+        have hpk := h.picked_le
+        have : i.delivered.take s.picked = s.inner.delivered.take s.picked := by
+          rw [← h3, List.take_take, Nat.min_eq_left hpk]
+        rw [this]; exact hh
   | take =>
     simp only [sstep] at hs
     split at hs
     · rename_i d hd
       cases hs
       have hlt : s.picked < s.inner.delivered.length := (List.getElem?_eq_some_iff.mp hd).1
-      exact ⟨by show s.picked + 1 ≤ s.inner.delivered.length; omega,
+      refine ⟨by show s.picked + 1 ≤ s.inner.delivered.length; omega,
         by have := h.account; show s.inner.inflight.total = (s.inner.delivered.length - (s.picked + 1)) + (d.1 :: s.handling).length
-           simp only [List.length_cons]; omega⟩
+           simp only [List.length_cons]; omega, ?_⟩
+      obtain ⟨hb, hh⟩ := h.handledOK
+      refine ⟨by show base ≤ s.picked + 1; omega, ?_⟩
+      show s.handled ++ [d] = (s.inner.delivered.take (s.picked + 1)).drop base
+      have hd' : s.inner.delivered[s.picked] = d := (List.getElem?_eq_some_iff.mp hd).2
+      rw [List.take_succ_eq_append_getElem hlt, hd', List.drop_append_of_le_length (by simp [List.length_take]; omega), hh]
     · cases hs
   | finish p =>
     simp only [sstep] at hs
@@ -140,7 +155,7 @@ theorem sstep_inv (div : DivFn) (s s' : SimpleSt) (a : SAct) (h : SInv s) (hs : 
         exact ⟨h.picked_le, by
           have := h.account
           show (s.inner.inflight.set p (s.inner.inflight.get p - 1)).total = (s.inner.delivered.length - s.picked) + (s.handling.erase p).length
-          rw [hl]; omega⟩
+          rw [hl]; omega, h.handledOK⟩
     · cases hs
 
 /-- **C01 (simplified disciplines).** For every run of the layered machine — any divider, any
@@ -148,12 +163,12 @@ theorem sstep_inv (div : DivFn) (s s' : SimpleSt) (a : SAct) (h : SInv s) (hs : 
     same time is at most HandlersQuantity. -/
 theorem c01_simple_handlers (div : DivFn) (s0 : St) (h0 : Fresh s0) (acts : List SAct) (s : SimpleSt)
     (hr : srun div (sinit s0) acts = some s) : s.handling.length ≤ s0.cfg.H := by
-  suffices H : ∀ (acts : List SAct) (u s : SimpleSt), SInv u → Inv u.inner → u.inner.cfg = s0.cfg →
+  suffices H : ∀ (acts : List SAct) (u s : SimpleSt), SInv s0.delivered.length u → Inv u.inner → u.inner.cfg = s0.cfg →
       srun div u acts = some s → s.handling.length ≤ s0.cfg.H from
     H acts (sinit s0) s ⟨by simp [sinit], by
         have hf : s0.inflight = [] := h0.2.1
         show s0.inflight.total = (s0.delivered.length - s0.delivered.length) + 0
-        rw [hf]; simp [Dist.total]⟩ (fresh_inv h0) rfl hr
+        rw [hf]; simp [Dist.total], ⟨Nat.le_refl _, by simp [sinit]⟩⟩ (fresh_inv h0) rfl hr
   intro acts
   induction acts with
   | nil =>
@@ -168,7 +183,7 @@ theorem c01_simple_handlers (div : DivFn) (s0 : St) (h0 : Fresh s0) (acts : List
     simp only [srun] at hr
     split at hr
     · rename_i u1 hu1
-      have hi1 := sstep_inv div u u1 a hi hu1
+      have hi1 := sstep_inv div _ u u1 a hi hu1
       -- the inner machine made one step (or none): its invariant and configuration persist
       have hinner : Inv u1.inner ∧ u1.inner.cfg = u.inner.cfg := by
         cases a with
@@ -241,13 +256,13 @@ theorem srun_run (div : DivFn) (acts : List SAct) (u s : SimpleSt) (hr : srun di
         · cases hu1
     · cases hr
 
-theorem srun_sinv (div : DivFn) (acts : List SAct) (u s : SimpleSt) (h : SInv u) (hr : srun div u acts = some s) : SInv s := by
+theorem srun_sinv (div : DivFn) (base : Nat) (acts : List SAct) (u s : SimpleSt) (h : SInv base u) (hr : srun div u acts = some s) : SInv base s := by
   induction acts generalizing u with
   | nil => simp [srun] at hr; subst hr; exact h
   | cons a as ih =>
     simp only [srun] at hr
     split at hr
-    · rename_i u1 hu1; exact ih u1 (sstep_inv div u u1 a h hu1) hr
+    · rename_i u1 hu1; exact ih u1 (sstep_inv div base u u1 a h hu1) hr
     · cases hr
 
 /-- **C07 (v2 simplified discipline): termination implies that every `Handle` call has
@@ -259,13 +274,35 @@ theorem c07_simple_v2 (div : DivFn) (keys : List (Nat × Bool)) (H : Nat) (hnd :
   obtain ⟨hf, _⟩ := initV2_fresh div keys H s0 h0
   have hrun := srun_run div acts (sinit s0) s hr
   have hzero := (C07.c07_v2_only_then div keys H hnd s0 s.inner (innerActs acts) h0 hrun e hdone).1
-  have hi := srun_sinv div acts (sinit s0) s ⟨by simp [sinit], by
+  have hi := srun_sinv div s0.delivered.length acts (sinit s0) s ⟨by simp [sinit], by
       have hfl : s0.inflight = [] := hf.2.1
       show s0.inflight.total = (s0.delivered.length - s0.delivered.length) + 0
-      rw [hfl]; simp [Dist.total]⟩ hr
+      rw [hfl]; simp [Dist.total], ⟨Nat.le_refl _, by simp [sinit]⟩⟩ hr
   have hacc := hi.account
   have hle := hi.picked_le
   rw [hzero] at hacc
   exact ⟨List.eq_nil_of_length_eq_zero (by omega), by omega⟩
+
+
+/-- **C02 (v2 simplified discipline): `Handle` is invoked exactly once per delivered item, in
+    delivery order** — at every moment the `Handle` calls made so far are exactly the delivered
+    items the handlers have picked up, and when the discipline has terminated they are all of
+    them (with C02 on the scheduler machine: exactly the items written to the inputs). -/
+theorem c02_simple_v2 (div : DivFn) (keys : List (Nat × Bool)) (H : Nat) (hnd : (keys.map (·.1)).Nodup)
+    (s0 : St) (h0 : initV2 div keys H = .ok s0) (acts : List SAct) (s : SimpleSt)
+    (hr : srun div (sinit s0) acts = some s) :
+    s.handled = s.inner.delivered.take s.picked ∧ (∀ e, s.inner.pc = .done e → s.handled = s.inner.delivered) := by
+  obtain ⟨hf, _⟩ := initV2_fresh div keys H s0 h0
+  have hd0 : s0.delivered = [] := by unfold initV2 at h0; split at h0; cases h0; cases h0; rfl
+  have hi := srun_sinv div s0.delivered.length acts (sinit s0) s ⟨by simp [sinit], by
+      have hfl : s0.inflight = [] := hf.2.1
+      show s0.inflight.total = (s0.delivered.length - s0.delivered.length) + 0
+      rw [hfl]; simp [Dist.total], ⟨Nat.le_refl _, by simp [sinit]⟩⟩ hr
+  have hh := hi.handledOK.2
+  rw [hd0] at hh
+  simp only [List.length_nil, List.drop_zero] at hh
+  refine ⟨hh, fun e hdone => ?_⟩
+  have := (c07_simple_v2 div keys H hnd s0 h0 acts s hr e hdone).2
+  rw [hh, this, List.take_length]
 
 end Cqos.C01
